@@ -4,7 +4,7 @@ use shared::triple::Triple;
 use rayon::prelude::*;
 use crate::reasoning::materialisation::replace_variables_with_bound_values;
 use crate::reasoning::Reasoner;
-use crate::reasoning::rules::{join_rule, matches_rule_pattern};
+use crate::reasoning::rules::{evaluate_filters, join_rule, matches_rule_pattern};
 
 impl Reasoner {
 
@@ -52,7 +52,8 @@ impl Reasoner {
                                         &rule.premise[0],
                                         triple1,
                                         &mut variable_bindings,
-                                    ) {
+                                    ) && evaluate_filters(&variable_bindings, &rule.filters, &dict)
+                                    {
                                         // Process each conclusion
                                         for conclusion in &rule.conclusion {
                                             let inferred = replace_variables_with_bound_values(
@@ -85,6 +86,10 @@ impl Reasoner {
                                                     &rule.premise[1],
                                                     triple2,
                                                     &mut variable_bindings_2,
+                                                ) && evaluate_filters(
+                                                    &variable_bindings_2,
+                                                    &rule.filters,
+                                                    &dict,
                                                 ) {
                                                     // Process each conclusion
                                                     rule.conclusion
@@ -126,6 +131,10 @@ impl Reasoner {
                                                     &rule.premise[0],
                                                     triple2,
                                                     &mut variable_bindings_2b,
+                                                ) && evaluate_filters(
+                                                    &variable_bindings_2b,
+                                                    &rule.filters,
+                                                    &dict,
                                                 ) {
                                                     // Process each conclusion
                                                     rule.conclusion
@@ -158,6 +167,9 @@ impl Reasoner {
                                     let single: HashSet<Triple> =
                                         std::iter::once(triple1.clone()).collect();
                                     for binding in join_rule(rule, &all_facts_arc, &single) {
+                                        if !evaluate_filters(&binding, &rule.filters, &dict) {
+                                            continue;
+                                        }
                                         for conclusion in &rule.conclusion {
                                             let inferred = replace_variables_with_bound_values(
                                                 conclusion,
